@@ -954,8 +954,16 @@ func (p *P) mayHeldBefore(fn *ssa.Function, rg Region) map[ssa.Instruction]bool 
 	return held
 }
 
-// mutexRegion builds a Region for sync.Mutex/RWMutex methods on the word (e.g. "queue.Mutex").
+// mutexRegion builds a Region for sync.Mutex/RWMutex methods on the word (e.g. "queue.Mutex"). Small wrappers count
+// too: a local function all of whose paths return with the mutex held (it locks and never unlocks) is an acquire,
+// one that unlocks on every path and never locks is a release (`func (s *Session) lockStreams() { s.streamLock.Lock() }`).
 func (p *P) mutexRegion(word string) Region {
+	if p.regionMemo == nil {
+		p.regionMemo = map[string]Region{}
+	}
+	if rg, ok := p.regionMemo[word]; ok {
+		return rg
+	}
 	is := func(in ssa.Instruction, names ...string) bool {
 		cc := callCommon(in)
 		if cc == nil || len(cc.Args) == 0 {
@@ -969,14 +977,69 @@ func (p *P) mutexRegion(word string) Region {
 		}
 		return false
 	}
-	return Region{
+	acq := func(in ssa.Instruction) bool {
+		return is(in, "(*sync.Mutex).Lock", "(*sync.RWMutex).Lock", "(*sync.RWMutex).RLock")
+	}
+	rel := func(in ssa.Instruction) bool {
+		return is(in, "(*sync.Mutex).Unlock", "(*sync.RWMutex).Unlock", "(*sync.RWMutex).RUnlock")
+	}
+	lockers, unlockers := map[*ssa.Function]bool{}, map[*ssa.Function]bool{}
+	for _, g := range p.fnList {
+		if g.Parent() != nil || len(g.Blocks) > 3 {
+			continue // wrappers are tiny, straight-line functions
+		}
+		nA, nR, other := 0, 0, 0
+		allInstrs(g, func(in ssa.Instruction) {
+			switch {
+			case acq(in):
+				if _, isD := in.(*ssa.Defer); !isD {
+					nA++
+				} else {
+					other++
+				}
+			case rel(in):
+				if _, isD := in.(*ssa.Defer); !isD {
+					nR++
+				} else {
+					other++
+				}
+			}
+		})
+		if len(g.Blocks) == 1 && other == 0 {
+			if nA == 1 && nR == 0 {
+				lockers[g] = true
+			}
+			if nR == 1 && nA == 0 {
+				unlockers[g] = true
+			}
+		}
+	}
+	rg := Region{
 		Acquire: func(in ssa.Instruction) bool {
-			return is(in, "(*sync.Mutex).Lock", "(*sync.RWMutex).Lock", "(*sync.RWMutex).RLock")
+			if acq(in) {
+				return true
+			}
+			if len(lockers) > 0 {
+				if g := p.localCallee(in); g != nil && lockers[g] {
+					return true
+				}
+			}
+			return false
 		},
 		Release: func(in ssa.Instruction) bool {
-			return is(in, "(*sync.Mutex).Unlock", "(*sync.RWMutex).Unlock", "(*sync.RWMutex).RUnlock")
+			if rel(in) {
+				return true
+			}
+			if len(unlockers) > 0 {
+				if g := p.localCallee(in); g != nil && unlockers[g] {
+					return true
+				}
+			}
+			return false
 		},
 	}
+	p.regionMemo[word] = rg
+	return rg
 }
 
 // deferredRelease: fn registers `defer <release>`.
